@@ -1,4 +1,5 @@
 import BHS.Props.C03
+import BHS.Props.C03Derived
 import BHS.Props.SqlShape.Add
 import BHS.Props.RepoWritesGen
 import BHS.Props.ImportRestart
@@ -22,3 +23,7 @@ open BHS.Props.C03
 #print axioms BHS.Props.ImportRestart.import_changes_only_an_empty_table
 #print axioms BHS.Props.ImportRestart.import_never_deletes_foreign_rows
 #print axioms BHS.Props.ImportRestart.C03_start_up_import_preserves_rows
+#print axioms WF_height_le_id
+#print axioms C03_parent_below
+#print axioms C03_height_bounded
+#print axioms C03_cum_ge_work
